@@ -192,6 +192,7 @@ def case_full(case):
                 if cl_rhs is not None:
                     out["J_true"] = [[(lambda f: None if f is None else numeval.fs(f))(numeval.val(odiff(cl_rhs[x[i]], sympy.Symbol(x[j])), pt)) for j in range(n)] for i in range(n)]
                 out["point"] = {str(k): str(v) for k, v in pt.items()}
+                out["_pt"] = pt
         except Exception as e:
             out["values_error"] = type(e).__name__ + ": " + str(e)[:200]
     if "result" in tr:
@@ -200,6 +201,22 @@ def case_full(case):
                            "update_expressions": {k: str(v) for k, v in s.get("update_expressions", {}).items()},
                            "propagators": {k: str(v) for k, v in s.get("propagators", {}).items()},
                            "initial_values": dict(s.get("initial_values", {})), "parameters": s.get("parameters")} for s in res]
+    pt_ = out.pop("_pt", None)
+    if "solvers" in out and pt_ is not None and not flags.get("preserve_expressions"):
+        # value of every numeric update expression at the same point as A, b, c (for the model's numericRhs)
+        try:
+            from harness.core import refsol
+            nv = {}
+            for s_ in out["solvers"]:
+                if s_["solver"].startswith("numeric"):
+                    for v, e in s_["update_expressions"].items():
+                        ex = refsol.parse(e, marker)
+                        if all(q in pt_ for q in ex.free_symbols):
+                            f = numeval.val(ex, pt_)
+                            nv[v] = None if f is None else numeval.fs(f)
+            out["numeric_values"] = nv
+        except Exception as e:
+            out["numeric_values_error"] = type(e).__name__ + ": " + str(e)[:120]
     if "solvers" in out and case.get("check_flow"):
         try:
             hs = indict.get("options", {}).get("output_timestep_symbol", "__h")
